@@ -3,6 +3,7 @@ package main
 // AL — equivalent type notations of the configuration denote the same value (C21, narrow).
 
 import (
+	"golang.org/x/tools/go/packages"
 	"go/token"
 	"fmt"
 	"go/ast"
@@ -209,6 +210,17 @@ func engineAL(w *World, tier string) *EngineResult {
 				}
 				return true
 			})
+		}
+	}
+	if convFn == nil {
+		// the same vocabulary as a table: package-level map[string]*T (or T) literal with ≥20
+		// entries, read by a function of the package
+		tab, fn := typeNameTableLiteral(bp)
+		if fn != nil {
+			convFn = fn
+			for k, v := range tab {
+				labelRet[k] = v
+			}
 		}
 	}
 	if convFn == nil {
@@ -454,8 +466,11 @@ func engineAL(w *World, tier string) *EngineResult {
 			continue
 		}
 		if fn.Signature.Params().Len() == 1 && fn.Signature.Results().Len() == 1 && isTSliceVal(fn.Signature.Results().At(0).Type()) {
-			if _, ok := fn.Signature.Params().At(0).Type().Underlying().(*types.Slice); ok {
-				argFn = fn
+			if sl, ok := fn.Signature.Params().At(0).Type().Underlying().(*types.Slice); ok {
+				// a list of argument declarations (structs), not a list of type strings
+				if _, isStruct := sl.Elem().Underlying().(*types.Struct); isStruct {
+					argFn = fn
+				}
 			}
 		}
 	}
@@ -666,6 +681,15 @@ func engineAL(w *World, tier string) *EngineResult {
 // isRuneTest: v is `x == 'r'` (either operand order).
 func isRuneTest(r rune) func(ssa.Value) bool {
 	return func(v ssa.Value) bool {
+		// strings.HasPrefix(x, "r") is the same test
+		if c, ok := v.(*ssa.Call); ok {
+			if cal := c.Call.StaticCallee(); cal != nil && cal.String() == "strings.HasPrefix" && len(c.Call.Args) == 2 {
+				if k, ok := c.Call.Args[1].(*ssa.Const); ok && constVal(k).k == kStr && constVal(k).s == string(r) {
+					return true
+				}
+			}
+			return false
+		}
 		bo, ok := v.(*ssa.BinOp)
 		if !ok || bo.Op != token.EQL {
 			return false
@@ -776,4 +800,83 @@ func loadsField(v ssa.Value, name string) bool {
 		return fieldNameOf(x) == name
 	}
 	return false
+}
+
+
+// typeNameTableLiteral: the type vocabulary written as a package-level map literal
+// (`map[string]*base.T{"Int": &IntT, …}` with at least 20 entries): label → package variable,
+// and the function of the package that indexes the map.
+func typeNameTableLiteral(bp *packages.Package) (map[string]types.Object, *ast.FuncDecl) {
+	info := bp.TypesInfo
+	var tabObj types.Object
+	tab := map[string]types.Object{}
+	for _, f := range bp.Syntax {
+		for _, d := range f.Decls {
+			gd, ok := d.(*ast.GenDecl)
+			if !ok {
+				continue
+			}
+			for _, sp := range gd.Specs {
+				vs, ok := sp.(*ast.ValueSpec)
+				if !ok {
+					continue
+				}
+				for i, v := range vs.Values {
+					cl, ok := ast.Unparen(v).(*ast.CompositeLit)
+					if !ok || len(cl.Elts) < 20 || i >= len(vs.Names) {
+						continue
+					}
+					mt, ok := info.TypeOf(cl).Underlying().(*types.Map)
+					if !ok {
+						continue
+					}
+					if b, ok := mt.Key().Underlying().(*types.Basic); !ok || b.Kind() != types.String {
+						continue
+					}
+					cand := map[string]types.Object{}
+					for _, el := range cl.Elts {
+						kv, ok := el.(*ast.KeyValueExpr)
+						if !ok {
+							continue
+						}
+						tv := info.Types[kv.Key]
+						if tv.Value == nil || tv.Value.Kind() != constant.String {
+							continue
+						}
+						val := ast.Unparen(kv.Value)
+						if u, ok := val.(*ast.UnaryExpr); ok && u.Op == token.AND {
+							val = ast.Unparen(u.X)
+						}
+						if id, ok := val.(*ast.Ident); ok {
+							cand[constant.StringVal(tv.Value)] = info.ObjectOf(id)
+						}
+					}
+					if len(cand) >= 20 {
+						tab, tabObj = cand, info.ObjectOf(vs.Names[i])
+					}
+				}
+			}
+		}
+	}
+	if tabObj == nil {
+		return nil, nil
+	}
+	var fn *ast.FuncDecl
+	for _, f := range bp.Syntax {
+		for _, d := range f.Decls {
+			fd, ok := d.(*ast.FuncDecl)
+			if !ok || fd.Body == nil {
+				continue
+			}
+			ast.Inspect(fd.Body, func(n ast.Node) bool {
+				if ix, ok := n.(*ast.IndexExpr); ok {
+					if id, ok := ix.X.(*ast.Ident); ok && info.ObjectOf(id) == tabObj && fn == nil {
+						fn = fd
+					}
+				}
+				return true
+			})
+		}
+	}
+	return tab, fn
 }
